@@ -15,6 +15,7 @@ import ShapeVerif.Model.Lexer
 import ShapeVerif.Model.Parser
 import ShapeVerif.Model.ParseCst
 import ShapeVerif.Model.Gen
+import ShapeVerif.Model.Derive
 import ShapeVerif.Ref.Sem
 import ShapeVerif.Ref.Rfc8259
 import ShapeVerif.Ref.Witness
@@ -196,6 +197,8 @@ def step (line : String) : String :=
   | ["display", a] => withShape a fun a =>
       if asciiKeys a then hexOfString (display a) else "unmodelled"
   | ["echo", a] => withShape a fun a => sexp a
+  | ["genx", a] => withShape a fun a =>
+      if asciiKeys a then hexOfString (generate a) else "unmodelled"
   | ["gen", a] => withShape a fun a =>
       if asciiKeys a then hexOfString (generate a) else "unmodelled"
   | ["cst", h] =>
@@ -275,6 +278,15 @@ def step (line : String) : String :=
         | .ok b => "ok " ++ showBool b
         | .err e => showPErr e
         | .panic => "panic"
+  | ["kfclass", "gen", a] => withShape a fun a =>
+      "classes " ++ genClasses a ++ (if noNullMembers a then "" else "d23 ")
+  | ["derive_accepts", a, h] => withShape a fun a =>
+      -- the derive model reads member names as field names: only for shapes whose names are legal fields
+      if badFields a then "unmodelled" else
+      match docOfHex h with
+      | none => "not-json"
+      | some d => if docNoDup d then toString (serdeAccepts a d) else "unmodelled"
+  | ["derive_rt", _, _] => "n/a"
   | "kfclass" :: "d3" :: hs =>
       match docsOfHex hs with
       | none => "not-json"
@@ -284,6 +296,8 @@ def step (line : String) : String :=
       | some d, some e => pC08 d e
       | _, _ => "not-json"
   | ["p_c17", _] => "n/a"
+  | "compile" :: _ => "n/a"
+  | "p_c16" :: _ => "n/a"
   | ["allocs", _, _] => "n/a"
   | "p_c09" :: k :: hs =>
       match docsOfHex hs, k.toNat? with
